@@ -15,6 +15,8 @@ pub enum Fault {
     BlockSwap { a: usize, b: usize, len: usize },
     /// overwrite `len` bytes at pos with 0xFF.. or 0x00..
     Smash { pos: usize, len: usize, val: u8 },
+    /// a 16-bit field set to `val` (big- or little-endian)
+    Put16 { pos: usize, val: u16, be: bool },
 }
 
 impl Fault {
@@ -29,6 +31,7 @@ impl Fault {
             Fault::BlockDrop { .. } => "block_drop",
             Fault::BlockSwap { .. } => "block_swap",
             Fault::Smash { .. } => "smash",
+            Fault::Put16 { .. } => "put16",
         }
     }
 
@@ -115,13 +118,23 @@ impl Fault {
                     return None;
                 }
             }
+            Fault::Put16 { pos, val, be } => {
+                if pos + 2 > v.len() {
+                    return None;
+                }
+                let b = if be { val.to_be_bytes() } else { val.to_le_bytes() };
+                v[pos..pos + 2].copy_from_slice(&b);
+                if v == d {
+                    return None;
+                }
+            }
         }
         Some(v)
     }
 
     /// Does the fault change the length?
     pub fn changes_len(&self) -> bool {
-        !matches!(self, Fault::Flip { .. } | Fault::BlockSwap { .. } | Fault::Smash { .. })
+        !matches!(self, Fault::Flip { .. } | Fault::BlockSwap { .. } | Fault::Smash { .. } | Fault::Put16 { .. })
     }
 
     /// Positions (in the original) the fault touches, for same-length faults; for length-changing
@@ -137,6 +150,7 @@ impl Fault {
             Fault::BlockDrop { start, .. } => start,
             Fault::BlockSwap { a, .. } => a,
             Fault::Smash { pos, .. } => pos,
+            Fault::Put16 { pos, .. } => pos,
         }
     }
 }
